@@ -143,7 +143,12 @@ type Case struct {
 	// in the script), "nil-first" (a run without an object), "twice" (the same
 	// run, twice).
 	History string `json:"history,omitempty"`
-	Msg     string `json:"message,omitempty"`
+	// Later: expectations for further runs of the same evaluator on the same
+	// object (variables persist, as they do in the model). PrepareTwice: the
+	// evaluator is asked to Prepare a second time before it runs.
+	Later        []Expect `json:"later,omitempty"`
+	PrepareTwice bool     `json:"prepare_twice,omitempty"`
+	Msg          string   `json:"message,omitempty"`
 }
 
 func (c *Case) fix() {
@@ -160,6 +165,13 @@ func (c *Case) fix() {
 	for k, v := range c.HostVals {
 		v.Fix()
 		c.HostVals[k] = v
+	}
+	for i := range c.Later {
+		c.Later[i].Val.Fix()
+		for k, v := range c.Later[i].Globals {
+			v.Fix()
+			c.Later[i].Globals[k] = v
+		}
 	}
 }
 
@@ -309,6 +321,9 @@ func runCase(c *Case) error {
 				os.Unsetenv("TZ")
 			}
 		}()
+	}
+	if len(c.Later) > 0 || c.PrepareTwice {
+		return runSequence(c, obj)
 	}
 	if len(c.HostVals) == 0 && !c.UseRun {
 		// the engine has a 20 s deadline of its own; a call that has not come
@@ -683,4 +698,36 @@ func playHistory(r *eng.Runner, history, script string, obj interface{}) {
 			}
 		}
 	}
+}
+
+// runSequence: several runs of one evaluator on one object, each compared
+// with what the model says for that run (the model keeps its variables from
+// run to run as the evaluator does).
+func runSequence(c *Case, obj interface{}) error {
+	r, err := prepared(c.Script, c.Vars, c.NoOpt)
+	if err != nil {
+		return checkResult(eng.Result{PrepareErr: err}, c.Exp)
+	}
+	if c.PrepareTwice {
+		if perr, pan := r.Prepare(c.NoOpt); perr != nil || pan != nil {
+			return fmt.Errorf("the second Prepare of the same script failed: %v %v", perr, pan)
+		}
+	}
+	exps := append([]Expect{c.Exp}, c.Later...)
+	for i, exp := range exps {
+		if exp.Unspec {
+			return nil // from here on the model cannot follow
+		}
+		res := r.Execute(obj)
+		if err := checkResult(res, exp); err != nil {
+			return fmt.Errorf("run %d of %d: %v", i+1, len(exps), err)
+		}
+		if err := checkEffects(res, exp); err != nil {
+			return fmt.Errorf("run %d of %d: %v", i+1, len(exps), err)
+		}
+		if exp.Quirk && res.Err != nil {
+			return nil // a pinned behaviour replaced by an error: the variables are no longer known
+		}
+	}
+	return nil
 }
